@@ -320,7 +320,7 @@ struct C13 : Scenario {
                 else for (auto& op : table()) if (op.get && !(std::string(op.name) == "alpha0" && fs_used) && P2.val[op.name] != P0.val[op.name]) o.fail("C13.same_value", "option " + std::string(op.name) + ": third generation has " + P2.val[op.name] + ", original " + P0.val[op.name]);
             }
             api_end();
-            o.mixfp(hash_str(P0.saved));
+            o.mixfp(hash_str(strip_cfg(P0.saved)));   // (the #config= line holds the run directory)
             o.probe(key);
             o.nontrivial = pl.size() > 3;
             o.sample = "api placements=" + std::to_string(pl.size()) + " parent_cfg_lines=" + std::to_string(split(parent, '\n').size() - 1);
